@@ -1737,6 +1737,12 @@ func (p *parser) parseSimpleStmt(mode int) (ast.Stmt, bool) {
 			values = p.parseRhsList()
 		}
 
+		// 左边没有任何标识符(错误已经报告): 不能构造没有名字的 ValueSpec,
+		// 它的 Pos/End 会访问 Names[0]
+		if len(idents) == 0 {
+			return &ast.BadStmt{From: x[0].Pos(), To: p.pos}, false
+		}
+
 		// Go spec: The scope of a constant or variable identifier declared inside
 		// a function begins at the end of the ConstSpec or VarSpec and ends at
 		// the end of the innermost containing block.
